@@ -73,8 +73,48 @@ def payload_spec_wide(target):
     raise ValueError(target)
 
 
+def twin_specs():
+    """DAGs that hold 'the same thing twice in two guises': a sub-tree in full AND as its pruned branch under one parent (equal
+    level-0 hash, different cells), a node over both, an exotic cell beside an ordinary cell with the same bits and children, two
+    equal leaves under different parents, one child referenced twice. Anything that merges, memoises or orders cells by less
+    than their full identity mixes these up."""
+    x = [{'k': 'o', 'b': [40, 2, 7], 'r': []}, {'k': 'o', 'b': [9, 2, 8], 'r': [0]}]                       # X = node 1
+    out = [('full+pruned-siblings', x + [{'k': 'p', 'of': 1, 'x': 0}, {'k': 'o', 'b': [5, 2, 1], 'r': [1, 2]}, {'k': 'mp', 'r': 3}]),
+           ('pruned+full-siblings', x + [{'k': 'p', 'of': 1, 'x': 0}, {'k': 'o', 'b': [5, 2, 1], 'r': [2, 1]}, {'k': 'mp', 'r': 3}]),
+           ('parents-over-full-and-pruned', x + [{'k': 'p', 'of': 1, 'x': 0}, {'k': 'o', 'b': [3, 2, 2], 'r': [1]}, {'k': 'o', 'b': [3, 2, 2], 'r': [2]},
+                                              {'k': 'mu', 'r': [3, 4]}, {'k': 'o', 'b': [1, 1, 0], 'r': [5, 5]}]),
+           ('update-of-equal-sides', x + [{'k': 'p', 'of': 1, 'x': 1}, {'k': 'o', 'b': [6, 2, 3], 'r': [2, 0]}, {'k': 'mu', 'r': [3, 3]}, {'k': 'mp', 'r': 4},
+                                       {'k': 'o', 'b': [2, 2, 2], 'r': [5]}]),
+           ('equal-leaves-under-different-parents', [{'k': 'o', 'b': [12, 2, 5], 'r': []}, {'k': 'o', 'b': [4, 2, 1], 'r': [0]},
+                                                     {'k': 'o', 'b': [4, 2, 2], 'r': [0, 0]}, {'k': 'o', 'b': [1, 2, 3], 'r': [1, 2, 0, 1]}])]
+    lib = {'k': 'l', 's': '0badcafe'}
+    out.append(('library-cell-beside-ordinary-twin', [lib, {'k': 'o', 'b': format(2, '08b') + ''.join(
+        format(b, '08b') for b in __import__('hashlib').sha256(bytes.fromhex('0badcafe')).digest()), 'r': []},
+        {'k': 'o', 'b': [2, 2, 2], 'r': [0, 1]}, {'k': 'o', 'b': [2, 2, 3], 'r': [1, 0, 2]}]))
+    return out
+
+
+def bag_of_total_length(total, crc=True):
+    """spec of a DAG whose bag written by the library's to_boc(has_idx=False, hash_crc32=crc) is exactly `total` bytes long before
+    the checksum (lengths at which block-wise code changes block: 65 536 k + 1, 2^20 ...)"""
+    for rs, off in ((2, 2), (2, 3), (3, 3), (3, 4)):
+        header = 4 + 1 + 1 + 3 * rs + off + rs
+        payload = total - header
+        if payload < 200 or (payload.bit_length() + 7) // 8 != off:
+            continue
+        try:
+            spec = payload_spec(payload) if payload < 100000 else payload_spec_wide(payload)
+        except (ValueError, AssertionError):
+            continue
+        n = len(spec)
+        if (n.bit_length() + 7) // 8 == rs and n <= 1024 or payload >= 100000 and (n.bit_length() + 7) // 8 == rs:
+            return spec
+    raise ValueError(total)
+
+
 def boundary_specs(tier):
     out = []
+    out += twin_specs()
     for n in (255, 256, 257):
         out.append(('cells=%d' % n, heap_spec(n)))
     for t in (254, 255, 256, 257, 127, 128):
